@@ -3,7 +3,9 @@
 (* Conformance judge for C09.  Reads the answers of the REAL type checker  *)
 (* (harness bin `typesreplay`), one JSON object per line of the file named *)
 (* by the environment variable TYPES_TRACE:                                *)
-(*   {"id":.., "g": graph, "roots": [ids],                                 *)
+(*   {"id":.., "g": graph, "roots": [ids], "judge": [[i,j]..] (the ordered *)
+(*    pairs of root indices judged against the value sets; REFL and TRANS  *)
+(*    are judged on the whole matrix),                                     *)
 (*    "compat":  [[bool]]   compat[i][j]  = is_compatible(roots[i], roots[j]) *)
 (*    "overlap": [[bool]]   overlap[i][j] = types_overlap(roots[i], roots[j]) *)
 (*                          (self = value type, pattern = pattern type)    *)
@@ -19,6 +21,8 @@
 (*   OVER    Overlap(A,B) => types_overlap(A,B)       (witness)            *)
 (*   INTER   Vals(A) \cap Vals(B) \subseteq Vals(A & B)      (witness)     *)
 (*   COMPL   Vals(A) \ Vals(B) \subseteq Vals(complement)    (witness)     *)
+(* A root that is not closed and contractive is a generator error          *)
+(* (ILLFORMED, a tool error, never an alarm).                              *)
 (* One state per record; every mismatch is printed as                      *)
 (*   <<"MISMATCH", {"id","rule","i","j","k","wit"}>>                       *)
 (* and violates the invariant Conforms (run with -continue).               *)
@@ -47,17 +51,20 @@ PairBad(r) ==
       R == r.roots
       U == TupleUniverse(G, Range(R))
       I == DOMAIN R
-  IN  {Mis("REFL", i, i, 0, <<>>) : i \in {x \in I : ~r.compat[x][x]}}
+      J == {<<r.judge[x][1], r.judge[x][2]>> : x \in DOMAIN r.judge}
+      ill == {x \in I : ~WellFormed(G, R[x])}
+  IN  IF ill # {} THEN {Mis("ILLFORMED", i, i, 0, <<>>) : i \in ill} ELSE
+      {Mis("REFL", i, i, 0, <<>>) : i \in {x \in I : ~r.compat[x][x]}}
       \cup
       UNION {LET esc == Escapees(G, U, R[p[1]], R[p[2]], D)
              IN  IF r.compat[p[1]][p[2]] /\ esc # {}
                  THEN {Mis("SOUND", p[1], p[2], 0, Wit(esc))} ELSE {}
-             : p \in {q \in I \X I : q[1] # q[2]}}
+             : p \in J}
       \cup
       UNION {LET com == Common(G, U, R[p[1]], R[p[2]], D)
              IN  IF ~r.overlap[p[1]][p[2]] /\ com # {}
                  THEN {Mis("OVER", p[1], p[2], 0, Wit(com))} ELSE {}
-             : p \in I \X I}
+             : p \in J}
       \cup
       {Mis("TRANS", p[1], p[2], p[3], <<>>) :
          p \in {q \in I \X I \X I : r.compat[q[1]][q[2]] /\ r.compat[q[2]][q[3]]
@@ -88,7 +95,7 @@ Stat(r) ==
       R == r.roots
       U == TupleUniverse(G, Range(R))
       I == DOMAIN R
-      P == {q \in I \X I : q[1] # q[2]}
+      P == {<<r.judge[x][1], r.judge[x][2]>> : x \in DOMAIN r.judge}
   IN  [id |-> r.id,
        pairs |-> Cardinality(P),
        contained |-> Cardinality({q \in P : Contained(G, U, R[q[1]], R[q[2]], D)}),
